@@ -192,12 +192,16 @@ fn record(a: &Args) {
         // every third case is a multi-volume numbering: adjacent ranges of ONE style whose numbers continue where the
         // previous range stopped, told apart only by their prefixes ("A-1".."A-5", "B-6".."B-9", ...)
         let continuous = c % 3 == 1;
+        // every sixth case is a book whose chapters each restart the SAME numbering: adjacent ranges with identical
+        // style, prefix and starting value (the later entries are what makes the numbers restart)
+        let restart = c % 6 == 2;
+        let (rstyle, rprefix, rstart) = (*rng.pick(&["D", "r", "A", "none"]), *rng.pick(&["", "A-", "§ "]), *rng.pick(&[1u32, 1, 4]));
         let (cstyle, mut cpg, mut cstart) = (*rng.pick(&["D", "R", "a"]), 0u32, 1 + rng.below(40) as u32);
-        for ri in 0..(if continuous { nr.max(2) } else { nr }) {
-            let pg = if continuous { cpg } else if rng.chance(1, 3) { 0 } else { rng.below(60) as u32 };
-            let style = if continuous { cstyle } else { *rng.pick(&styles) };
-            let prefix = if continuous { ["A-", "B-", "C-", "", "D-"][ri as usize % 5] } else { *rng.pick(&prefixes) };
-            let start = if continuous { cstart } else if rng.chance(1, 2) { *rng.pick(&starts) } else { 1 + rng.below(1500) as u32 };
+        for ri in 0..(if continuous || restart { nr.max(2) } else { nr }) {
+            let pg = if restart { ri as u32 * (2 + c as u32 % 3) } else if continuous { cpg } else if rng.chance(1, 3) { 0 } else { rng.below(60) as u32 };
+            let style = if restart { rstyle } else if continuous { cstyle } else { *rng.pick(&styles) };
+            let prefix = if restart { rprefix } else if continuous { ["A-", "B-", "C-", "", "D-"][ri as usize % 5] } else { *rng.pick(&prefixes) };
+            let start = if restart { rstart } else if continuous { cstart } else if rng.chance(1, 2) { *rng.pick(&starts) } else { 1 + rng.below(1500) as u32 };
             if continuous {
                 let len = 1 + rng.below(9) as u32;
                 cpg += len;
